@@ -376,8 +376,26 @@ def long_corpus(F, tier, name):
     return gen.normalise(gen.dedup(recs))
 
 
+def mc_slow_limbs(tier):
+    """refinement: limb-level slow path (BigintOps) = value-level slow path (Slow.tla) on a small format"""
+    t0 = time.time()
+    r = core.tlc(os.path.join(core.SPEC, "mc", "MC_SlowLimbs.tla"),
+                 os.path.join(core.SPEC, "mc", "MC_SlowLimbs.cfg" if tier == "quick" else "MC_SlowLimbs_full.cfg"), "C06-mc-slowlimbs",
+                 coverage=False, cont=True, timeout=6000)
+    prints = [p for p in r.prints if isinstance(p, dict)]
+    bad = [p for p in prints if p.get("verdict") not in ("fast", "moderate", "slow:refines")]
+    if core.tlc_fatal(r) or r.distinct == 0 or bad or r.invariant_violations:
+        raise core.ToolError("MC_SlowLimbs: the limb-level slow path does not refine the value-level one: %s %s" % (core.tlc_fatal(r)[:2], bad[:2]))
+    cats = collections.Counter(p["verdict"] for p in prints)
+    if cats.get("slow:refines", 0) == 0:
+        raise core.ToolError("vacuity: MC_SlowLimbs never reached the slow path")
+    return {"module": "MC_SlowLimbs", "states": r.distinct, "transitions": r.generated, "inputs": r.distinct // 2,
+            "sampled_outcomes": dict(cats), "wall_s": round(time.time() - t0, 1)}
+
+
 def c06(tier):
     cfgs = ["std", "std+compact", "std+alloc"] if tier == "quick" else core.ALL_CONFIGS
+    mc = mc_slow_limbs(tier)
     inputs = long_corpus(gen.F64, tier, "C06f64") + long_corpus(gen.F32, tier, "C06f32")
     inputs = gen.normalise(inputs)
     parsecheck.parse_property_check(
@@ -385,7 +403,7 @@ def c06(tier):
         rule="inputs with 20 .. 10^6 significant digits: midpoint expansions with far-out digits, tails of 9s, trailing zeros, "
              "truncations around 19 digits and MAX_DIGITS; run-structured strings over the three truncation mechanisms; "
              "integer-only, fraction-only with leading zeros, split; oracle uses the first 800 digits + tail flag (exact)",
-        level_note="as C01; digit strings cross to TLC in run-length form and are never expanded beyond 800 digits")
+        level_note="as C01; digit strings cross to TLC in run-length form and are never expanded beyond 800 digits", mc=mc)
 
 
 def range_corpus(F, tier, name):
